@@ -1,8 +1,11 @@
 package props
 
 import (
+	"bytes"
 	"encoding/json"
 	"fmt"
+	"sort"
+	"strconv"
 	"strings"
 
 	"github.com/cybergarage/go-redis/redis/proto"
@@ -189,6 +192,100 @@ func c02Run(c *fw.Ctx) {
 			run(stream, want, bounds, afterCR, 0, "afterCR")
 		}
 	})
+	c02Ladder(c, run)
+}
+
+// c02Ladder: bulk strings whose length sits on or next to a power of two or
+// a change in the number of length digits (where an implementation may switch
+// buffers or strategies), alone and inside an array, followed by two more
+// values; every split point near a structural position of the stream.
+func c02Ladder(c *fw.Ctx, run func(stream []byte, want []resp.Value, bounds map[int]bool, splits []int, stride int, kind string)) {
+	sizes := map[int]bool{}
+	for k := 3; k <= 17; k++ {
+		for d := -1; d <= 1; d++ {
+			sizes[1<<k+d] = true
+		}
+	}
+	for _, n := range []int{10, 100, 1000, 10000, 100000} {
+		for d := -1; d <= 1; d++ {
+			sizes[n+d] = true
+		}
+	}
+	var ls []int
+	for n := range sizes {
+		if c.Quick() && n > 70000 {
+			continue
+		}
+		ls = append(ls, n)
+	}
+	sort.Ints(ls)
+	pat := []byte("ab\r\n$3\r\n")
+	for _, L := range ls {
+		for shape := 0; shape < 3; shape++ {
+			if !c.Mine() {
+				continue
+			}
+			if c.Expired() {
+				return
+			}
+			body := make([]byte, L)
+			for i := range body {
+				if shape == 1 {
+					body[i] = 'x'
+				} else {
+					body[i] = pat[i%len(pat)]
+				}
+			}
+			first := resp.Value{Kind: resp.Bulk, Data: body}
+			if shape == 2 {
+				first = resp.A(resp.B("SET"), resp.Value{Kind: resp.Bulk, Data: body}, resp.I(7))
+			}
+			want := []resp.Value{first, resp.S("OK"), resp.I(42)}
+			var stream []byte
+			bounds := map[int]bool{0: true}
+			for _, v := range want {
+				stream = append(stream, v.Bytes()...)
+				bounds[len(stream)] = true
+			}
+			// structural positions: start, end of the bulk header, end of the payload, end of each value
+			hdr := bytes.Index(stream, []byte("$"+strconv.Itoa(L)+"\r\n"))
+			marks := []int{0, hdr, hdr + len(strconv.Itoa(L)) + 3, hdr + len(strconv.Itoa(L)) + 3 + L, len(first.Bytes()), len(stream)}
+			cand := map[int]bool{}
+			win := 10
+			if c.Thorough() {
+				win = 40
+			}
+			for _, m := range marks {
+				for d := -win; d <= win; d++ {
+					if k := m + d; k > 0 && k < len(stream) {
+						cand[k] = true
+					}
+				}
+			}
+			for k := 4096; k < len(stream); k *= 2 {
+				for d := -1; d <= 1; d++ {
+					if k+d < len(stream) {
+						cand[k+d] = true
+					}
+				}
+			}
+			if c.Thorough() && L <= 5000 {
+				for k := 1; k < len(stream); k++ {
+					cand[k] = true
+				}
+			}
+			if c.WantSample() {
+				c.Sample(map[string]any{"stream": trunc(stream, 40), "bulk_length": L, "scripts": fmt.Sprintf("whole, %d two-way splits around the structural positions and 2^k offsets, strides 1/2/3/4096/32768", len(cand))})
+			}
+			run(stream, want, bounds, nil, 0, "ladder-whole")
+			for k := range cand {
+				run(stream, want, bounds, []int{k}, 0, "ladder-2way")
+			}
+			for _, st := range []int{1, 2, 3, 4096, 32768} {
+				run(stream, want, bounds, nil, st, "ladder-stride")
+			}
+		}
+	}
 }
 
 func c02Replay(raw json.RawMessage) (string, bool, error) {
@@ -208,7 +305,7 @@ func init() {
 	fw.Register(&fw.Prop{
 		ID:    "C02",
 		Level: "exploration",
-		Rule:  "streams = all concatenations of 1..3 values from a 40-value representative set (every type; CRLF/prefix-looking bulk bodies; empty/null bulks; empty, nested, mixed arrays; multi-digit lengths and counts); delivery scripts = whole, EVERY 2-way split offset, every 3-way split for streams <=48 bytes (thorough <=96, plus every 4-way split for streams <=28 bytes and 20736 four-value sequences), strides 1/2/3/5/7, split after every CR. A case (stream, script) is non-trivial when at least one split falls strictly inside a value.",
+		Rule:  "streams = all concatenations of 1..3 values from a 40-value representative set (every type; CRLF/prefix-looking bulk bodies; empty/null bulks; empty, nested, mixed arrays; multi-digit lengths and counts); delivery scripts = whole, EVERY 2-way split offset, every 3-way split for streams <=48 bytes (thorough <=96, plus every 4-way split for streams <=28 bytes and 20736 four-value sequences), strides 1/2/3/5/7, split after every CR. Size ladder: a bulk string of every length 2^k-1, 2^k, 2^k+1 (k=3..16, thorough 17) and 10^k-1, 10^k, 10^k+1 (k=1..4, thorough 5), with CRLF/header-looking content, plain content, and inside a command array, followed by two more values: whole, every 2-way split within 10 (thorough 40) bytes of each structural position (value start, end of the length header, end of the payload, end of each value) and around every 2^k stream offset >= 4096 (thorough: every offset for lengths <= 5000), strides 1/2/3/4096/32768. A case (stream, script) is non-trivial when at least one split falls strictly inside a value.",
 		Assumptions: []string{
 			"Read never returns (0,nil) or (n>0,EOF): neither net.TCPConn nor tls.Conn does",
 			"random k-way partitions of the quantifier are not claimed",
